@@ -13,7 +13,7 @@ Theorem C20_reader_inverts_printing :
   forall (t : sx) (s w rest : list N),
          renders t s ->
          all_space w ->
-         ascii (w ++ s ++ rest) ->
+         octet_text (w ++ s ++ rest) ->
          (is_atom t = true -> ends_well rest = true) -> sx_parse (w ++ s ++ rest) = Some (ROk t (length w + length s)).
 Proof. exact (@parse_printed). Qed.
 Print Assumptions C20_reader_inverts_printing.
@@ -48,7 +48,7 @@ Print Assumptions C20_numeral_value.
 (* whatever the reader accepts is optional white space and a rendering of the returned tree, inside the input; the position is its end *)
 Theorem C20_accepted_means_printed :
   forall (inp : list N) (t : sx) (c : nat),
-         ascii inp ->
+         octet_text inp ->
          sx_parse inp = Some (ROk t c) ->
          (c <= length inp)%nat /\
          (exists w s : list N,
@@ -59,7 +59,7 @@ Print Assumptions C20_accepted_means_printed.
 (* an input that does not begin, after optional white space, with a complete expression yields an error status (and the model returns no tree with an error) *)
 Theorem C20_everything_else_is_rejected :
   forall inp : list N,
-         ascii inp ->
+         octet_text inp ->
          (forall (w s rest : list N) (t : sx),
           inp = w ++ s ++ rest -> all_space w -> renders t s -> (is_atom t = true -> ends_well rest = true) -> False) ->
          exists e : sxstatus, sx_parse inp = Some (RErr e).
@@ -68,14 +68,14 @@ Print Assumptions C20_everything_else_is_rejected.
 
 (* the reader terminates on every input (the fuel of the model, length + 1, is never exhausted) *)
 Theorem C20_reader_terminates :
-  forall inp : list N, ascii inp -> sx_parse inp <> None.
+  forall inp : list N, octet_text inp -> sx_parse inp <> None.
 Proof. exact (@sx_parse_total). Qed.
 Print Assumptions C20_reader_terminates.
 
 (* the same for the elements of a list up to its closing parenthesis *)
 Theorem C20_list_elements :
   forall (fuel : nat) (inp : list N) (t : sx) (c : nat),
-         ascii inp ->
+         octet_text inp ->
          parse_list fuel inp = Some (ROk t c) ->
          (c <= length inp)%nat /\ (exists ts : list sx, t = list_of ts /\ renders_elems ts (firstn c inp)).
 Proof. exact (@parse_list_sound). Qed.
